@@ -88,6 +88,20 @@ def _valid_property(sim):
     p = pg.prop()
     if not p['meta'] and sim.coin('forcemeta', 0.3):
         p['meta'] = [('title', '"title %d"' % sim.choose('tv', 100))]
+    if sim.coin('nonascii', 0.25):
+        # text as people write it: accents, arrows, emoji inside strings
+        word = sim.pick('naword', ('caf\u00e9', 'gr\u00f6\u00dfe \u2192 max', '\u65e5\u672c', 'ok \U0001f600', 'na\u00efve'))
+        if sim.coin('nameta', 0.5):
+            p['meta'] = [m for m in p['meta'] if m[0] != 'description'] + [('description', '"%s"' % word)]
+        else:
+            kind, trig, beh, bound = p['pattern']
+            extra_s = ('bin', '=', ('field', 'txt'), ('lit', 'str', '"%s"' % word))
+
+            def add_s(ev):
+                if ev[0] == 'or':
+                    return ('or', [add_s(ev[1][0])] + list(ev[1][1:]))
+                return ('ev', ev[1], ev[2], extra_s if ev[3] is None else ('bin', 'and', ev[3], extra_s))
+            p['pattern'] = (kind, trig, add_s(beh), bound)
     # sprinkle numeric constants (the serializer must null every non-finite float anywhere)
     if sim.coin('const', 0.45):
         c = sim.pick('constname', CONSTS)
@@ -178,9 +192,16 @@ def gen_scenario(seed, cfg):
             raw_bytes = list(b[:pos] + bytes([sim.pick('badbyte', (0xff, 0xc3, 0x80, 0xfe))]) + b[pos:])
         if path_kind == 'bom':
             raw_bytes = list(b'\xef\xbb\xbf' + text.encode())
+    if mode == 'inline' and '"' in text and sim.coin('surrogate', 0.08):
+        # an argument that was not valid UTF-8 on the command line: argv is decoded with
+        # surrogateescape, so the text holds a lone surrogate inside a string
+        q = text.index('"')
+        text = text[:q + 1] + '\udcff' + text[q + 1:]
     sc = {'seed': seed, 'mode': mode, 'json': as_json, 'text': text, 'content_kind': content_kind,
           'path_kind': path_kind, 'raw_bytes': raw_bytes,
           'out_buffer': sim.pick('outbuf', (0, 16, 64, 512, 8192, 8192)),
+          'out_encoding': sim.weighted('outenc', [(5, ['utf-8', 'strict']), (1.5, ['ascii', 'strict']), (1, ['latin-1', 'strict']),
+                                                   (1, ['cp1252', 'strict']), (1.5, ['utf-8', 'surrogateescape'])]),
           'sweep_seed': sim.subseed('sweep'), 'digest_gen': sim.digest()}
     return sc
 
@@ -194,7 +215,7 @@ def setup_files(sc, root):
     """Create the run's files; returns the argument to pass."""
     pk = sc['path_kind']
     p = os.path.join(root, 'spec.hpl')
-    data = bytes(sc['raw_bytes']) if sc.get('raw_bytes') is not None else sc['text'].encode('utf-8')
+    data = bytes(sc['raw_bytes']) if sc.get('raw_bytes') is not None else sc['text'].encode('utf-8', 'surrogateescape')
     if pk == 'dangling_symlink':
         os.symlink(os.path.join(root, 'gone.hpl'), p)
         return p
@@ -235,6 +256,9 @@ def disk_text(path):
         return None
 
 
+_ROOT_RE = None
+
+
 class RunOutcome:
     pass
 
@@ -245,7 +269,11 @@ def run_once(sc, faults):
     faults: {'fs': {idx: fault}, 'stdout': fault|None, 'stderr': fault|None, 'interrupt': {'k':..,'exc':..}|None}
     """
     from hpl import cli
+    global _ROOT_RE
     root = tempfile.mkdtemp(prefix='hplsim_c19_')
+    if _ROOT_RE is None:
+        import re
+        _ROOT_RE = re.compile(re.escape(os.path.join(tempfile.gettempdir(), 'hplsim_c19_')) + r'[A-Za-z0-9_]*')
     o = RunOutcome()
     try:
         argv = []
@@ -296,13 +324,15 @@ def run_once(sc, faults):
                 return False
 
         try:
-            res = simio.run_process(cli.main, argv, out_raw, err_raw, out_buffer=sc['out_buffer'], wrapper=Wrap)
+            res = simio.run_process(cli.main, argv, out_raw, err_raw, out_buffer=sc['out_buffer'], wrapper=Wrap,
+                                    out_encoding=tuple(sc.get('out_encoding', ('utf-8', 'strict'))))
         finally:
             if cwd is not None:
                 os.chdir(cwd)
         # the temporary directory's random name must not leak into anything compared or hashed
-        res.stdout = res.stdout.replace(root, '<ROOT>')
-        res.stderr = res.stderr.replace(root, '<ROOT>')
+        # (an injected write fault can cut the output in the middle of the name, hence the pattern)
+        res.stdout = _ROOT_RE.sub('<ROOT>', res.stdout)
+        res.stderr = _ROOT_RE.sub('<ROOT>', res.stderr)
         o.res = res
         o.fs_calls = list(fs.calls)
         o.fs_fired = list(fs.fired)
@@ -357,6 +387,10 @@ def judge(sc, o):
     parses, ast = oracle_parse(sc['mode'], o.delivered)
     expected = mirror(ast) if parses else None
     ok_json, doc = strict_json(res.stdout)
+    if ok_json and not getattr(res, 'stdout_is_utf8', True):
+        ok_json, doc = False, None  # JSON text is UTF-8; anything else is not a valid document
+        if res.status == 0 and sc['json']:
+            return ('bad-json', 'exit status 0 but stdout is not UTF-8 encoded text, hence not a JSON document')
     faulted = any_fault_fired(o)
     # content-changing file faults (truncate/replace) are judged strictly against what was delivered
     only_content_faults = faulted and not o.itr_fired and o.out_fired == 0 and o.err_fired == 0 and all(
@@ -670,6 +704,9 @@ REAL_CASES = (
     ('devfull', ['-o', 'json', '-p', 'globally: no a { x > 1 }']),
     ('closedpipe', ['-o', 'json', '-p', 'globally: some b within 100 ms']),
     ('syntaxerr', ['-p', 'globally: no']),
+    ('typeerr', ['-o', 'json', '-p', 'globally: no a { (x + True) > 1 }']),
+    ('plain', ['-p', '# id: p1\nafter a as M: b { x > @M.x } causes (c or d) within 0.5 s']),
+    ('nanliteral', ['-o', 'json', '-p', 'globally: some b { x in {NAN, 1} }']),
 )
 
 
@@ -681,7 +718,7 @@ def real_case(name, argv, unbuffered):
     if unbuffered:
         env['PYTHONUNBUFFERED'] = '1'
     cmd = [sys.executable, '-m', 'hpl'] + list(argv)
-    if name in ('regular', 'syntaxerr'):
+    if name not in ('devfull', 'closedpipe'):
         p = subprocess.run(cmd, env=env, capture_output=True, text=True, timeout=120)
         return p.returncode, p.stdout, None
     if name == 'devfull':
@@ -738,7 +775,7 @@ def real_process_crosscheck():
             res = simio.run_process(cli.main, list(argv), out_raw, err_raw, out_buffer=0 if unbuffered else 8192)
             if real_status != res.status:
                 problems.append('%s: real exit status %d, stub %d' % (tag, real_status, res.status))
-            if name in ('regular', 'syntaxerr') and real_out != res.stdout:
+            if name not in ('devfull', 'closedpipe') and real_out != res.stdout:
                 problems.append('%s: real stdout differs from the stub\'s' % tag)
     return problems, violations
 
